@@ -168,17 +168,23 @@ theorem totalArea_le_nItems_mul (I : Inst) (W H : Int) (hrep : ∀ it ∈ I.item
     (hd : ∀ it ∈ I.items, 0 ≤ it.w ∧ it.w ≤ W ∧ 0 ≤ it.h ∧ it.h ≤ H) :
     I.totalArea ≤ I.nItems * (W * H) := by
   unfold Inst.nItems Inst.totalArea
-  induction I.items with
-  | nil => simp
-  | cons a t ih =>
-    have iht := ih (fun it h => hrep it (by simp [h])) (fun it h => hd it (by simp [h]))
-    have ha := hd a (by simp)
-    have hr := hrep a (by simp)
-    simp only [List.map_cons, List.sum_cons]
-    have h1 : a.w * a.h ≤ W * H := Int.mul_le_mul ha.2.1 ha.2.2.2 ha.2.2.1 (by omega)
-    have h2 := Int.mul_le_mul_of_nonneg_right h1 hr
-    have : (a.rep + (t.map (·.rep)).sum) * (W * H) = W * H * a.rep + (t.map (·.rep)).sum * (W * H) := by ring
-    omega
+  have key : ∀ l : List Item, (∀ it ∈ l, 0 ≤ it.rep) →
+      (∀ it ∈ l, 0 ≤ it.w ∧ it.w ≤ W ∧ 0 ≤ it.h ∧ it.h ≤ H) →
+      (l.map (fun it => it.w * it.h * it.rep)).sum ≤ (l.map (·.rep)).sum * (W * H) := by
+    intro l
+    induction l with
+    | nil => simp
+    | cons a t ih =>
+      intro hrep hd
+      have iht := ih (fun it h => hrep it (by simp [h])) (fun it h => hd it (by simp [h]))
+      have ha := hd a (by simp)
+      have hr := hrep a (by simp)
+      simp only [List.map_cons, List.sum_cons]
+      have h1 : a.w * a.h ≤ W * H := Int.mul_le_mul ha.2.1 ha.2.2.2 ha.2.2.1 (by omega)
+      have h2 := Int.mul_le_mul_of_nonneg_right h1 hr
+      have : (a.rep + (t.map (·.rep)).sum) * (W * H) = W * H * a.rep + (t.map (·.rep)).sum * (W * H) := by ring
+      omega
+  exact key I.items hrep hd
 
 /-- the bin area of the space covers the template's items: `min_bins·W·H ≥ total_item_area` -/
 theorem FromTemplate.area_le {name : String} {T : Inst} {lb : Int} {sp : Space}
